@@ -28,6 +28,21 @@ pub fn exec(func: &str, a: &mut Args) -> String {
             match Ball::new(r).scaled(&s, 8) { Some(e) => match e.right() { Some(p) => { let pts = p.points(); format!("poly {} {}", pts.len(), pts.iter().map(d3::fp).collect::<Vec<_>>().join(" ")) }, None => "ball".into() }, None => "none".into() } }
         "capsule_scaled_u" => { let p = d3::p(a); let q = d3::p(a); let r = a.f(); let s = a.f();
             match Capsule::new(p, q, r).scaled(&d3::Vector::new(s, s, s), 8) { Some(e) => match e.left() { Some(c) => format!("capsule {} {} {}", d3::fp(&c.segment.a), d3::fp(&c.segment.b), ff(c.radius)), None => "poly".into() }, None => "none".into() } }
+        "hf_triangles_at" => { let nr = a.u(); let nc = a.u(); let i = a.u(); let j = a.u();
+            let n = a.u(); let hs: Vec<f64> = (0..n).map(|_| a.f()).collect(); let sc = d3::v(a);
+            let zig = a.b(); let l = a.b(); let rr = a.b();
+            use crate::p3::shape::{HeightField, HeightFieldCellStatus};
+            let mut hf = HeightField::new(crate::p3::na::DMatrix::from_fn(nr, nc, |ii, jj| hs[ii * nc + jj]), sc);
+            let mut st = HeightFieldCellStatus::empty();
+            if zig { st |= HeightFieldCellStatus::ZIGZAG_SUBDIVISION; } if l { st |= HeightFieldCellStatus::LEFT_TRIANGLE_REMOVED; } if rr { st |= HeightFieldCellStatus::RIGHT_TRIANGLE_REMOVED; }
+            if i + 1 < nr && j + 1 < nc { hf.set_cell_status(i, j, st); }
+            let (t1, t2) = hf.triangles_at(i, j);
+            let ft = |t: Option<Triangle>| match t { None => "none".to_string(), Some(t) => format!("t {} {} {}", d3::fp(&t.a), d3::fp(&t.b), d3::fp(&t.c)) };
+            format!("{} {}", ft(t1), ft(t2)) }
+        "capsule_scaled" => { let p = d3::p(a); let q = d3::p(a); let r = a.f(); let s = d3::v(a);
+            match Capsule::new(p, q, r).scaled(&s, 8) { Some(e) => match e.left() { Some(c) => format!("capsule {} {} {}", d3::fp(&c.segment.a), d3::fp(&c.segment.b), ff(c.radius)), None => "poly".into() }, None => "none".into() } }
+        "cylinder_scaled" => { let hh = a.f(); let r = a.f(); let s = d3::v(a);
+            match Cylinder::new(hh, r).scaled(&s, 8) { Some(e) => match e.left() { Some(c) => format!("cyl {} {}", ff(c.half_height), ff(c.radius)), None => "poly".into() }, None => "none".into() } }
         "cylinder_scaled_xz" => { let hh = a.f(); let r = a.f(); let sx = a.f(); let sy = a.f();
             match Cylinder::new(hh, r).scaled(&d3::Vector::new(sx, sy, sx), 8) { Some(e) => match e.left() { Some(c) => format!("cyl {} {}", ff(c.half_height), ff(c.radius)), None => "poly".into() }, None => "none".into() } }
         "cone_scaled_xz" => { let hh = a.f(); let r = a.f(); let sx = a.f(); let sy = a.f();
@@ -70,6 +85,19 @@ pub fn gen(r: &mut Rng, thorough: bool) -> Vec<(String, String)> {
         v.push(("capsule_scaled_u".into(), format!("{} {} {} {}", d3::hp(&d3::gen_p(r, lat, 10.0)), d3::hp(&d3::gen_p(r, lat, 10.0)), hx(r.pos_extent(lat)), hx(u))));
         v.push(("cylinder_scaled_xz".into(), format!("{} {} {} {}", hx(r.pos_extent(lat)), hx(r.pos_extent(lat)), hx(gen_scale(r, lat)), hx(gen_scale(r, lat)))));
         v.push(("cone_scaled_xz".into(), format!("{} {} {} {}", hx(r.pos_extent(lat)), hx(r.pos_extent(lat)), hx(gen_scale(r, lat)), hx(gen_scale(r, lat).abs()))));
+        // general dispatch: equal-magnitude scales of mixed sign, fully uniform, and non-uniform
+        let m = if lat { *r.pick(&[0.5, 1.0, 2.0]) } else { r.logu(1e-1, 1e1) };
+        let sg = |r: &mut Rng| if r.bool() { 1.0 } else { -1.0 };
+        let sd = match r.below(3) { 0 => d3::Vector::new(m * sg(r), m * sg(r), m * sg(r)), 1 => d3::Vector::new(u, u, u), _ => s };
+        v.push(("capsule_scaled".into(), format!("{} {} {} {}", d3::hp(&d3::gen_p(r, lat, 4.0)), d3::hp(&d3::gen_p(r, lat, 4.0)), hx(r.pos_extent(lat)), d3::hv(&sd))));
+        v.push(("cylinder_scaled".into(), format!("{} {} {}", hx(r.pos_extent(lat)), hx(r.pos_extent(lat)), d3::hv(&sd))));
+        if it % 2 == 0 {
+            let nr = 2 + r.below(4) as usize; let nc = 2 + r.below(4) as usize;
+            let hs: Vec<String> = (0..nr * nc).map(|_| hx(if lat { r.lattice(8, 1) } else { r.uniform(-3.0, 3.0) })).collect();
+            let sc = if lat { d3::Vector::new(*r.pick(&[1.0, 2.0, 4.0, -2.0]), *r.pick(&[1.0, 0.25, -1.0]), *r.pick(&[1.0, 7.0, -2.0])) } else { d3::Vector::new(r.logu(0.1, 10.0), r.logu(0.1, 10.0), r.logu(0.1, 10.0)) };
+            v.push(("hf_triangles_at".into(), format!("{} {} {} {} {} {} {} {} {} {}", nr, nc, r.below(nr as u64), r.below(nc as u64), nr * nc, hs.join(" "), d3::hv(&sc),
+                b(r.bool()), b(r.below(5) == 0), b(r.below(5) == 0))));
+        }
         if it % 8 == 0 {
             if s.x != s.y || s.x != s.z { v.push(("ball_scaled_nu".into(), format!("{} {}", hx(r.pos_extent(lat)), d3::hv(&s)))); }
             let nsub = 3 + r.below(if thorough { 62 } else { 30 });
